@@ -251,3 +251,58 @@ def check (params lines : List String) : CaseResult := Id.run do
   return { r with nontrivial := observedAny }
 
 end Bpmn.Driver.C06
+
+namespace Bpmn.Driver.C06
+open Bpmn.Driver
+
+/-- Family `c06loop`: the event-based gateway is re-entered through a loop. The C06 predicate, per activation, on the
+implementation's own traces: in every round exactly one determination, exactly the delivered alternative's task
+requested (once), nothing for the others — also when their events arrive while nobody listens; no delivery blocks, no
+panic; after the leaving alternative the instance completes. -/
+def checkLoop (_params lines : List String) : CaseResult := Id.run do
+  let mut r : CaseResult := {}
+  let mut alts : List (Nat × String) := []          -- alternative ↦ task
+  let mut cur : Option (Nat × Nat) := none           -- (round, alternative)
+  let mut determ := 0
+  let mut tasks : List String := []
+  let mut complete := false
+  let mut rounds := 0
+  let close := fun (r : CaseResult) (cur : Option (Nat × Nat)) (determ : Nat) (tasks : List String)
+      (alts : List (Nat × String)) =>
+    match cur with
+    | none => r
+    | some (k, e) =>
+      let want := (alts.lookup e).getD "?"
+      let r := if determ != 1 then
+          { r with specs := s!"ebg_reentry_not_one_winner: activation {k + 1} (event of alternative {e}): {determ} determination(s)" :: r.specs }
+        else r
+      if tasks != [want] then
+        { r with specs := s!"ebg_reentry_branch: activation {k + 1} (event of alternative {e}): requested {tasks}, expected [{want}]" :: r.specs }
+      else r
+  for ln in lines do
+    match words ln with
+    | "prog" :: _ => pure ()
+    | ["alt", j, _, t, _, _, _] =>
+      match j.toNat? with
+      | some j => alts := alts ++ [(j, t)]
+      | none => r := { r with bad := ln :: r.bad }
+    | ["round", k, e] =>
+      r := close r cur determ tasks alts
+      match k.toNat?, e.toNat? with
+      | some k, some e => cur := some (k, e); determ := 0; tasks := []; rounds := rounds + 1
+      | _, _ => r := { r with bad := ln :: r.bad }
+    | ["obs", "determ", _] => determ := determ + 1
+    | "obs" :: "task" :: t :: _ => tasks := tasks ++ [t]
+    | "obs" :: "ret" :: "deliver" :: n :: ["blocked"] =>
+      r := { r with specs := s!"ebg_reentry_delivery_blocks: {n}" :: r.specs }
+    | "obs" :: "panic" :: rest => r := { r with specs := s!"ebg_reentry_panic: {" ".intercalate rest}" :: r.specs }
+    | ["obs", "noquiesce"] => r := { r with specs := "engine_does_not_quiesce:" :: r.specs }
+    | ["obs", "final", c] => complete := c == "complete=1"
+    | "harness-error" :: _ => r := { r with bad := ln :: r.bad }
+    | _ => pure ()
+  r := close r cur determ tasks alts
+  if !complete && r.specs.isEmpty then
+    r := { r with specs := s!"ebg_reentry_never_completes: after {rounds} activation(s)" :: r.specs }
+  return { r with nontrivial := rounds ≥ 2 }
+
+end Bpmn.Driver.C06
